@@ -120,9 +120,13 @@ def getOptBool (j : Json) (k : String) : Except String (Option Bool) :=
   | none => .ok none
   | some v => some <$> jsonToBool v
 
-def distOutJ (r : Except DistErr (List (Option Rat))) : Json :=
+def shapedJ (t : Shaped (Option Rat)) : Json :=
+  objJ [("shape", natsJ t.shape), ("data", listJ optRatJ t.cells)]
+
+/-- a `log_prob` outcome: `{shape, data}` or the name of the error class -/
+def distOutJ (r : Except DistErr (Shaped (Option Rat))) : Json :=
   match r with
-  | .ok l => listJ optRatJ l
+  | .ok t => shapedJ t
   | .error .valueError => strJ "ValueError"
   | .error .assertion => strJ "AssertionError"
   | .error .scoring => strJ "IndexError"
@@ -257,17 +261,40 @@ def c07Sample : Handler := fun c => do
       let draws ← getList (jsonToList (jsonToList jsonToNat)) c "draws"
       pure (sampleBatchedLp lm V eos n T draws)
   let rowsA := rows.toArray
+  -- the script of calls the harness makes on one distribution object; the caller's tensors are
+  -- named by numbers, their content is given by row indices into the (first) sample
+  let sampleShape ← match fieldOpt c "sample_shape" with
+    | none => pure [M]
+    | some v => jsonToList jsonToNat v
+  let drawn := if M == 0 then emptySample sampleShape N Topt else sampleValue sampleShape N rows
+  let drawnLp := sampleScores sampleShape N rows walkLp
+  let width := if M == 0 then Topt.getD 1 else rowsWidth rows
   let ops ← match fieldOpt c "trace" with
     | none => pure []
     | some t => jsonToList (fun e => do
         let op ← getStr e "op"
-        if op == "sample" then pure (DistOp.sample (M == 0) rows walkLp)
-        else if op == "clear" then pure DistOp.clearCache
+        if op == "sample" then do
+          let r ← getNat e "ref"
+          pure (CallOp.sample r (M == 0) drawn drawnLp)
+        else if op == "clear" then pure CallOp.clearCache
+        else if op == "lp" then do
+          let r ← getNat e "ref"
+          pure (CallOp.logProb r)
+        else if op == "edit" then do
+          let k ← getNat e "call"
+          -- `scores.sub_(1)`
+          pure (CallOp.editScores k (fun (t : Shaped (Option Rat)) =>
+            ⟨t.shape, t.cells.map (fun x => x.map (· - 1))⟩))
         else do
+          -- "new" / "set": a tensor of shape sshape + batch_shape + (S,) holding the named rows
+          let r ← getNat e "ref"
           let idx ← getNatList e "idx"
-          pure (DistOp.logProb (idx.map (fun i => rowsA.getD i [])))) t
-  let traceOf := fun (cache : Bool) =>
-    listJ distOutJ (runDist true (distCfg lm V eos Topt N cache va) DistCache.empty ops)
+          let ss ← getNatList e "sshape"
+          pure (CallOp.setValue r ⟨ss ++ batchShape N ++ [width], idx.map (fun i => rowsA.getD i [])⟩)) t
+  let cfg := fun (cache : Bool) => distCfg lm V eos Topt N cache va
+  let aliased := fun (cache : Bool) => listJ distOutJ (runAliased (cfg cache) AliasState.init ops)
+  let repaired := fun (cache : Bool) => listJ distOutJ (runCalls (cfg cache) ops)
+  let reference := listJ distOutJ (refCalls (cfg true) ops)
   -- the draw hypotheses of C07_sample_in_support / C07_sample_batched_in_support / C07_sample_flat_scored
   let hyps ← match N with
     | none => do
@@ -277,14 +304,16 @@ def c07Sample : Handler := fun c => do
       let draws ← getList (jsonToList (jsonToList jsonToNat)) c "draws"
       pure (draws.all (drawHyps V eos n T))
   -- hypothesis of C07_log_prob_cache, evaluated: the walks' scores are the scores of the rows
-  let scored := walkLp == scoreRows lm V eos N rows
+  let scored := M == 0 || decide (drawnLp = (cfg true).score drawn)
   let inSupp := rows.map (fun r => match Topt with
     | some t => (Spec.support V eos t).contains (padTo t (eos.getD 0) r)
     | none => supportCheck V eosI none (r.map Int.ofNat) && fillAfterEos r (eos.getD 0) (eos.getD 0) == r)
   pure (objJ [
     ("model", objJ [("rows", listJ natsJ rows), ("log_probs", ratsJ lps),
-      ("valid", listJ boolJ valid), ("trace_cached", traceOf true), ("trace_fresh", traceOf false)]),
-    ("spec", objJ [("in_support", listJ boolJ inSupp)]),
+      ("valid", listJ boolJ valid), ("width", natJ width),
+      ("aliased_cached", aliased true), ("aliased_fresh", aliased false),
+      ("repaired_cached", repaired true), ("repaired_fresh", repaired false)]),
+    ("spec", objJ [("in_support", listJ boolJ inSupp), ("reference", reference)]),
     ("flags", objJ [("scored", boolJ scored), ("draw_hyps", boolJ hyps)])])
 
 /-- c07.lpraise: {V, N (null = no batch shape), eos, max_iters, lm, lm_default, validate_args,
@@ -302,10 +331,12 @@ def c07LpRaise : Handler := fun c => do
   let valuesA := values.toArray
   let ops ← getList (fun e => do
       let op ← getStr e "op"
-      if op == "clear" then pure (DistOp.clearCache (Value := List (List Nat)) (Scores := List (Option Rat)))
+      if op == "clear" then pure (DistOp.clearCache (Value := Shaped (List Nat)) (Scores := Shaped (Option Rat)))
       else do
         let k ← getNat e "val"
-        pure (DistOp.logProb (valuesA.getD k []))) c "trace"
+        -- the harness hands over `torch.tensor(rows).view(1, [N,] T)`
+        let rows := valuesA.getD k []
+        pure (DistOp.logProb ⟨[1] ++ batchShape N ++ [rowsWidth rows], rows⟩)) c "trace"
   let cfg := fun (cache : Bool) => distCfg lm V eos Topt N cache va (oovInHistory V)
   let run := fun (pinned cache : Bool) => listJ distOutJ (runDist pinned (cfg cache) DistCache.empty ops)
   let ref := listJ distOutJ ((logProbArgs ops).map (refLogProb (cfg true)))
